@@ -95,7 +95,9 @@ def case_failures(seed_, with_region):
     if with_region:
         w = WCS(naxis=2)
         w.wcs.crpix = [shape[1] / 2.0, shape[0] / 2.0]
-        w.wcs.cdelt = [-1.0, 1.0]
+        # sometimes a projection that does not cover every pixel (the limb of a SIN hemisphere crosses the image)
+        big = rnd.random() < 0.25
+        w.wcs.cdelt = [-14.0, 14.0] if big else [-1.0, 1.0]
         # longitudes on both sides of zero: a negative CRVAL1 makes the WCS report negative longitudes
         w.wcs.crval = [rnd.choice([rnd.uniform(10, 350), rnd.uniform(-40, -2), rnd.uniform(-3, 3)]), rnd.uniform(-60, 60)]
         w.wcs.ctype = ["RA---SIN", "DEC--SIN"]
@@ -109,8 +111,12 @@ def case_failures(seed_, with_region):
             region.add_circles(np.radians(float(ra)), np.radians(float(dec)), np.radians(0.08))
         else:
             region = Region(maxdepth=8)
-            ra, dec = w.wcs_pix2world(rnd.uniform(-1, shape[1]), rnd.uniform(-1, shape[0]), 0)
-            region.add_circles(np.radians(float(ra)), np.radians(float(dec)), np.radians(rnd.uniform(0.7, 4.0)))
+            if big:
+                ra, dec = w.wcs.crval
+                region.add_circles(np.radians(float(ra)), np.radians(float(dec)), np.radians(rnd.uniform(40.0, 80.0)))
+            else:
+                ra, dec = w.wcs_pix2world(rnd.uniform(-1, shape[1]), rnd.uniform(-1, shape[0]), 0)
+                region.add_circles(np.radians(float(ra)), np.radians(float(dec)), np.radians(rnd.uniform(0.7, 4.0)))
         helper = Helper(w)
         keep = []
         for comp in ref:
